@@ -11,10 +11,10 @@ import MsqModel.Analyze.Tables
 class.  Everything below the clause level is modelled on the generic `Val` (`nodeColsV`): aggregates, wildcards,
 column names, the stop at sub-queries, and the default recursion over the fields in dataclass order.
 
-Two of the special cases (`ASTGroupByClause`, `ASTOrderByClause`) call `source()` on their items, which only
-the typed tree can answer (the printer model is typed).  These two, and the statement skeleton above them
-(`ASTSingleSelectStatement`, `ASTUnionSelectStatement`, `ASTWithClause`, `ASTWithTable`, whose fields are walked in
-dataclass order), are therefore transcribed on the typed tree (`nodeColsSelect` …).  Inside expression values
+Two of the special cases (`ASTGroupByClause`, `ASTOrderByClause`) test whether an item is an integer literal and read its
+text, which is simplest on the typed tree.  These two, and the statement skeleton above them
+(`ASTSingleSelectStatement`, whose fields are walked in dataclass order), are therefore transcribed on the typed tree
+(`nodeColsSelect` …).  Inside expression values
 neither clause class can occur outside a sub-query (where the walk stops), so `nodeColsV` reports them as
 outside its fragment rather than guessing.
 -/
@@ -45,9 +45,8 @@ def optStrOf : Val → Except Err (Option String)
   | .str s => .ok (some s)
   | _ => .error (.unmodelled "name field that is neither None nor str")
 
-/-- `node.source() not in name_set.GLOBAL_VARIABLE_NAME_SET` for an `ASTColumnNameExpression`
-(`source()` is called with the default dialect) -/
-def isGlobalVariable (t : Option String) (c : String) : Bool := Gen.globalVarNames.contains (PR.columnSrc .DEFAULT t c)
+/-- `node.table_name is None and node.column_name.upper() in name_set.GLOBAL_VARIABLE_NAME_SET` (`:35-36`) -/
+def isGlobalVariable (t : Option String) (c : String) : Bool := t.isNone && Gen.globalVarNames.contains (Gen.pyUpperS c)
 
 mutual
 /-- `CurrentNodeUsedQuoteColumn.handle` (`current_level_used_quote_columns.py:21-65`) on values below the clause level -/
@@ -67,7 +66,7 @@ def nodeColsV : Val → Except Err (List QCol)
       | _ => .error (.unmodelled "column_name that is not a str")
     else if cls == "ASTGroupByClause" || cls == "ASTOrderByClause" then
       .error (.unmodelled "GROUP BY / ORDER BY clause inside an expression value")
-    else if cls == "ASTSubQueryExpression" then pure []     -- sub-queries are not entered
+    else if cls == "ASTSubQueryExpression" || cls == "ASTWithClause" then pure []     -- sub-queries and WITH tables are not entered
     else nodeColsF fs
   | .tuple xs => nodeColsL xs
   | .list xs => nodeColsL xs
@@ -97,12 +96,14 @@ def ordinalOfSource (s : String) : Except Err (Option Int) :=
   else if !b.isEmpty && b.all (fun c => c.isDigit || c.toNat ≥ 128) then .error (.unmodelled "non-ASCII digits in an ordinal")
   else .ok none
 
-/-- one item of GROUP BY (`:40-46`) / ORDER BY (`:51-57`): the ordinal test is made on `source()` of the expression -/
-def ordinalOrCols (e : Expr) (v : Val) : Except Err (List QCol) := do
-  let s ← PR.prE .DEFAULT e
-  match ← ordinalOfSource s with
-  | some n => pure [⟨none, none, some n⟩]
-  | none => nodeColsV v
+/-- one item of GROUP BY (`:41-47`) / ORDER BY (`:52-58`): a position only if the item is an integer *literal* -/
+def ordinalOrCols (e : Expr) (v : Val) : Except Err (List QCol) :=
+  match e with
+  | .literal s => do
+    match ← ordinalOfSource s with
+    | some n => pure [⟨none, none, some n⟩]
+    | none => nodeColsV v
+  | _ => nodeColsV v
 
 def groupItems : List Expr → Except Err (List QCol)
   | [] => pure []
@@ -134,11 +135,10 @@ def nodeColsOrder : Option (List OrderItem) → Except Err (List QCol)
 def selectClauseVal (dist : Bool) (cols : List (Expr × Option String)) : Val :=
   .node "ASTSelectClause" [("distinct", .bool dist), ("columns", .tuple (selectCols cols))]
 
-mutual
-/-- `handle(ASTSingleSelectStatement)`: no special case applies, so the fields are walked in dataclass order -/
+/-- `handle(ASTSingleSelectStatement)`: no special case applies, so the fields are walked in dataclass order; the
+`with_clause` field is an `ASTWithClause` (or `None`) and contributes nothing -/
 def nodeColsSelect : Select → Except Err (List QCol)
-  | .mk ws dist cols fr lats js wh gb hv ob sb db cb lm => do
-    let a0 ← nodeColsWiths ws
+  | .mk _ dist cols fr lats js wh gb hv ob sb db cb lm => do
     let a1 ← nodeColsV (selectClauseVal dist cols)
     let a2 ← nodeColsV (fromClauseVal fr)
     let a3 ← nodeColsV (.tuple (laterals lats))
@@ -151,31 +151,7 @@ def nodeColsSelect : Select → Except Err (List QCol)
     let a10 ← nodeColsV (distributeByClauseVal db)
     let a11 ← nodeColsV (clusterByClauseVal cb)
     let a12 ← nodeColsV (limitVal lm)
-    pure (a0 ++ a1 ++ a2 ++ a3 ++ a4 ++ a5 ++ a6 ++ a7 ++ a8 ++ a9 ++ a10 ++ a11 ++ a12)
-/-- `handle(ASTWithClause)` → `tables` → each `ASTWithTable` → `name` (a str), `statement` -/
-def nodeColsWiths : Option (List WithTable) → Except Err (List QCol)
-  | none => pure []
-  | some ws => nodeColsWithTables ws
-def nodeColsWithTables : List WithTable → Except Err (List QCol)
-  | [] => pure []
-  | .mk _ q :: r => do
-    let a ← nodeColsQuery q
-    let b ← nodeColsWithTables r
-    pure (a ++ b)
-def nodeColsUnion : List (String × Select) → Except Err (List QCol)
-  | [] => pure []
-  | (_, s) :: r => do       -- the `ASTUnionType` element contributes nothing
-    let a ← nodeColsSelect s
-    let b ← nodeColsUnion r
-    pure (a ++ b)
-def nodeColsQuery : Query → Except Err (List QCol)
-  | .single s => nodeColsSelect s
-  | .union ws s us => do
-    let a ← nodeColsWiths ws
-    let b ← nodeColsSelect s
-    let c ← nodeColsUnion us
-    pure (a ++ b ++ c)
-end
+    pure (a1 ++ a2 ++ a3 ++ a4 ++ a5 ++ a6 ++ a7 ++ a8 ++ a9 ++ a10 ++ a11 ++ a12)
 
 /-! ## `current_level_column_analyzer.py` -/
 
